@@ -8,6 +8,7 @@ import (
 	"sort"
 	"strings"
 	"sync"
+	"sync/atomic"
 
 	"verifharness/internal/vh"
 )
@@ -30,6 +31,7 @@ type HTTPSrv struct {
 	mu     sync.Mutex
 	rec    []HTTPReq
 	Record bool // false: answer only (race runs)
+	Count  int64
 }
 
 func transportHeader(k string) bool {
@@ -40,7 +42,9 @@ func transportHeader(k string) bool {
 	return false
 }
 
-// StartHTTP launches a target answering 200 {"result":"ok"} (with an Authorization header) to everything.
+// StartHTTP launches a target answering 200 {"result":"ok",…} (with an Authorization header) to
+// everything, except that a request whose URI contains "nok" is answered 200 {"result":"bad"} —
+// the lever the cases use to make an assert/response postprocessor fail on a delivered response.
 func StartHTTP() (*HTTPSrv, error) {
 	s := &HTTPSrv{Record: true}
 	l, err := net.Listen("tcp", "127.0.0.1:0")
@@ -50,6 +54,7 @@ func StartHTTP() (*HTTPSrv, error) {
 	s.Addr = l.Addr().String()
 	s.srv = &http.Server{Handler: http.HandlerFunc(func(w http.ResponseWriter, r *http.Request) {
 		body, _ := io.ReadAll(r.Body)
+		atomic.AddInt64(&s.Count, 1)
 		if s.Record {
 			var items []string
 			for k, vs := range r.Header {
@@ -72,7 +77,11 @@ func StartHTTP() (*HTTPSrv, error) {
 		w.Header().Set("Content-Type", "application/json")
 		w.Header().Set("Authorization", "Bearer abcdef0123456789")
 		w.WriteHeader(200)
-		_, _ = w.Write([]byte(`{"result":"ok","items":[1,2,3]}`))
+		if strings.Contains(r.RequestURI, "nok") {
+			_, _ = w.Write([]byte(`{"result":"bad","items":[]}`))
+		} else {
+			_, _ = w.Write([]byte(`{"result":"ok","items":[1,2,3]}`))
+		}
 	})}
 	go func() { _ = s.srv.Serve(l) }()
 	return s, nil
